@@ -28,7 +28,7 @@ class MachineryError(Exception):
 
 
 class Ctx(object):
-    def __init__(self, prop, tier, seed):
+    def __init__(self, prop, tier, seed, clean_replays=False):
         self.prop = prop
         self.tier = tier
         self.seed = seed
@@ -37,6 +37,10 @@ class Ctx(object):
         os.makedirs(self.workdir, exist_ok=True)
         self.replaydir = os.path.join(VERIF, "replays")
         os.makedirs(self.replaydir, exist_ok=True)
+        if clean_replays:
+            for f in os.listdir(self.replaydir):
+                if f.startswith(prop + "-"):
+                    os.unlink(os.path.join(self.replaydir, f))
         self.states = 0
         self.distinct_states = 0
         self.transitions = 0
@@ -85,11 +89,8 @@ class Ctx(object):
             self.coverage_actions[name + "." + k] = v[1]
         if replay_cases and r.ncases:
             built = self.build(variant)
-            cases = tlc.load_cases(r.cases_path)
-            if max_cases:
-                cases = _take(cases, max_cases)
-            stats, fails = replay.replay_cases(built["worker"], cases, seed=self.seed, env=worker_env,
-                                               translate=translate, judge_fn=judge_fn)
+            stats, fails = replay.replay_cases(built["worker"], r.cases_path, seed=self.seed, env=worker_env,
+                                               translate=translate, judge_fn=judge_fn, max_cases=max_cases)
             ph["replayed"] = stats["n"]
             ph["replay_ok"] = stats["ok"]
             ph["expected_errors"] = stats.get("err_expected", 0)
@@ -212,7 +213,7 @@ def main(prop, run):
     ap.add_argument("--replay", default=None)
     args = ap.parse_args(sys.argv[2:] if len(sys.argv) > 1 and sys.argv[1] == prop else None)
     seed = int(os.environ.get("VERIF_SEED", "0") or 0)
-    ctx = Ctx(prop, args.tier if args.tier in ("quick", "thorough") else "quick", seed)
+    ctx = Ctx(prop, args.tier if args.tier in ("quick", "thorough") else "quick", seed, clean_replays=not args.replay)
     try:
         if args.replay:
             return replay_one(ctx, args.replay)
